@@ -50,7 +50,43 @@ def isolate(ts, pairs):
     return tables.tree_sequence()
 
 
+def sym_blocks(rng):
+    """hand-built family aimed at the `seen_mixtures` cache of get_mixture_prior_params: two clades A, B that
+    gain one sample each at the same breakpoint (identical (k, span) arrays => cache hit), repeated in a second
+    block with other internal nodes where one extra sample is missing (same arrays, different total T)"""
+    import tskit
+    s1, s2 = rng.randint(1, 60), rng.randint(1, 60)
+    nblocks = rng.choice([1, 2, 2])
+    extra_in = rng.choice([0, 1])          # the block in which sample 6 is present
+    tables = tskit.TableCollection((s1 + s2) * nblocks)
+    for _ in range(7):
+        tables.nodes.add_row(flags=tskit.NODE_IS_SAMPLE, time=0)
+    for j in range(nblocks):
+        off = (s1 + s2) * j
+        a = tables.nodes.add_row(time=1.0 + 0.01 * j)
+        b = tables.nodes.add_row(time=1.2 + 0.01 * j)
+        r = tables.nodes.add_row(time=3.0 + 0.01 * j)
+        lo, mid, hi = off, off + s1, off + s1 + s2
+        for c in (0, 1):
+            tables.edges.add_row(lo, hi, a, c)
+        for c in (2, 3):
+            tables.edges.add_row(lo, hi, b, c)
+        tables.edges.add_row(mid, hi, a, 4)
+        tables.edges.add_row(mid, hi, b, 5)
+        tables.edges.add_row(lo, mid, r, 4)
+        tables.edges.add_row(lo, mid, r, 5)
+        tables.edges.add_row(lo, hi, r, a)
+        tables.edges.add_row(lo, hi, r, b)
+        if j == extra_in or nblocks == 1 and rng.random() < 0.5:
+            tables.edges.add_row(lo, hi, r, 6)
+    tables.sort()
+    ts = tables.tree_sequence()
+    return ts.simplify()      # drops sample 6's column only if it is nowhere attached? (keeps samples)
+
+
 def make_ts(rng):
+    if rng.random() < 0.1:
+        return sym_blocks(rng), "sym"
     n = rng.choice([2, 3, 4, 4, 5, 6, 7, 8, 9])
     L = rng.choice([5, 20, 100, 100, 1000])
     rec = rng.choice([0.0, 0.5, 2.0, 2.0, 10.0, 30.0]) / L
@@ -235,7 +271,7 @@ def coq_params(ctx, jobs):
 
 
 def run(ctx, model_ok=True):
-    n = ctx.n(110, 900)
+    n = ctx.n(90, 600)
     cases = []
     for _ in range(n):
         ts, kind = make_ts(ctx.rng)
